@@ -40,6 +40,8 @@ type domain struct {
 	// byteTemplates: inputs with the placeholder "\xfe\xfe" standing for one
 	// byte; instantiated with all 256 byte values
 	byteTemplates []string
+	// fillers used to pad inputs to threshold lengths
+	fillers []string
 }
 
 type scaleFam struct{ prefix, unit, suffix string }
@@ -64,6 +66,8 @@ func planMix(d *domain, mixes []Mix) []core.Unit {
 			us = append(us, gen.RangeUnits("mut", m.N, 20000, m.Dict)...)
 		case "novel":
 			us = append(us, gen.RangeUnits("novel", m.N, 25000, m.Dict)...)
+		case "padded":
+			us = append(us, gen.RangeUnits("padded", 120, 4, strconv.FormatUint(m.N, 10))...)
 		case "bytes":
 			us = append(us, core.Unit{Gen: "bytes", Lo: 0, Hi: 256})
 			// every byte value in every template position of the domain
@@ -165,6 +169,36 @@ func genMix(d *domain, w *core.Worker, u core.Unit, emit func(core.Case)) bool {
 			b := string([]byte{byte(i)})
 			for _, n := range []int{1, 2, 3, 33} {
 				emit(core.Case{In: strings.Repeat(b, n)})
+			}
+		}
+	case "padded":
+		// short interesting inputs blown up to threshold lengths (a fast path or
+		// a limit that depends on the input length shows only here)
+		c := d.corpus()
+		for i := u.Lo; i < u.Hi; i++ {
+			base := c[(int(i)*37+11)%len(c)]
+			lens := []int{255, 256, 257, 1024, 4096, 4097, 65536}
+			fillers := d.fillers[:3]
+			if u.Arg == "1" {
+				lens = []int{255, 256, 257, 1023, 1024, 1025, 4095, 4096, 4097, 8191, 8192, 32768, 65535, 65536, 65537}
+				fillers = d.fillers
+			}
+			for _, n := range lens {
+				for pi, filler := range fillers {
+					k := n - len(base)
+					if k <= 0 {
+						continue
+					}
+					pad := strings.Repeat(filler, k/len(filler)+1)[:k]
+					switch (int(i) + pi) % 3 {
+					case 0:
+						emit(core.Case{In: base + pad})
+					case 1:
+						emit(core.Case{In: pad + base})
+					default:
+						emit(core.Case{In: base[:len(base)/2] + pad + base[len(base)/2:]})
+					}
+				}
 			}
 		}
 	case "bytetpl":
